@@ -188,8 +188,9 @@ package vm
 //@ ghost lastVMResult *vm.Result
 //@ func vm.Run
 //@   requires m != nil
-// the machine is in the state ResolveResources/ResolveBalances leave it in: well-formed balance tables, empty stack, no postings
-//@   assumes minv(m)
+// the machine is in the state NewMachine / ResolveResources / ResolveBalances leave it in: well-formed balance tables,
+// resources that are machine values, empty stack, no postings. Checked where the engine calls Run (command.exec).
+//@   requires minv(m) // C01
 //@   modifies Machine.Stack, Machine.P, Machine.Postings, map[machine.Asset]*machine.MonetaryInt, map[string]machine.Value, map[machine.AccountAddress]map[string]machine.Value, machine.Funding.*, box machine.Allotment, box int, chan, map[string]string, map[string]metadata.Metadata, ghost lastVMResult
 //@   ensures err != nil ==> ret0 == nil
 //@   ensures err == nil ==> ret0 != nil && len(ret0.Postings) == len(m.Postings)
@@ -232,6 +233,7 @@ package vm
 
 //@ func (*vm.Machine).SetVarsFromJSON
 //@   requires m != nil
+//@   ensures err == nil ==> (forall n2 string :: has(m.Vars, n2) ==> machVal(m.Vars[n2])) // C01 C12
 //@   ensures m.Program == old(m.Program) && m.UnresolvedResources == old(m.UnresolvedResources) // C08: the (possibly cached, shared) program is never written
 //@   modifies Machine.Vars, map[string]string, map[string]machine.Value
 //@   alsofor C08
@@ -241,6 +243,11 @@ package vm
 // pending (nil amount). Every pending resource is registered, under its own index, for ResolveBalances, which
 // leaves none pending: the VM never meets a monetary without an amount.
 //@ def pendingBal(v) = typeis(v, "machine.Monetary") && as(v, "machine.Monetary").Amount == nil
+// resource values while resolution is under way: machine values, except that a balance() monetary still lacks its amount
+//@ def machValP(v) = machVal(v) || (pendingBal(v) && v != nil)
+// the balance tables while ResolveBalances builds them: one table per account, each a distinct existing object, entries non-nil
+//@ def balTables(m) = m.Balances != nil && (forall a9 machine.AccountAddress :: has(m.Balances, a9) ==> m.Balances[a9] != nil && allocated(m.Balances[a9])) && (forall a8 machine.AccountAddress, b8 machine.AccountAddress :: has(m.Balances, a8) && has(m.Balances, b8) && a8 != b8 ==> m.Balances[a8] != m.Balances[b8]) && balNonNil(m)
+//@ def resourcesP(m) = forall i1 in 0..len(m.Resources) :: machValP(m.Resources[i1])
 //@ def pendingRegistered(m) = (forall i9 in 0..len(m.Resources) :: pendingBal(m.Resources[i9]) ==> has(m.UnresolvedResourceBalances, i9)) && (forall k9 int :: has(m.UnresolvedResourceBalances, k9) ==> 0 <= k9 && k9 < len(m.Resources) && typeis(m.Resources[k9], "machine.Monetary"))
 // C02: the accounts the engine locks for writing are what this function reports as involved sources: for every
 // source address of the program whose resource is an account, its address string, position by position
@@ -272,10 +279,14 @@ package vm
 //@   loop 3 invariant forall j7 in 0..rangeindex+1 :: involvedSources[j7] == involvedAccountsMap[m.Program.Sources[j7]]
 //@   assumes forall n9 string :: has(m.Vars, n9) ==> !pendingBal(m.Vars[n9])
 //@   ensures err == nil ==> pendingRegistered(m) // C12
+// C01: what Run needs of the resources is established here and in ResolveBalances, not assumed
+//@   requires forall n3 string :: has(m.Vars, n3) ==> machVal(m.Vars[n3]) // C01
+//@   ensures err == nil ==> resourcesP(m) // C01
+//@   loop 1 invariant resourcesP(m) // C01
 //@   loop 1 invariant pendingRegistered(m) && m.UnresolvedResourceBalances == old(m.UnresolvedResourceBalances)
 //@   ensures m.Program == old(m.Program) && m.UnresolvedResources == old(m.UnresolvedResources) // C08: the (possibly cached, shared) program is never written
 //@   modifies Machine.resolveCalled, Machine.Resources, map[int]string, map[machine.Address]string
-//@   property C12 C02
+//@   property C12 C02 C01
 //@   alsofor C08
 // the needed-balance table of a compiled program maps account resources to asset-bearing resources (assumed for C12)
 //@ func (*vm.Machine).ResolveBalances
@@ -284,6 +295,9 @@ package vm
 //@   assumes forall a6 machine.Address, b6 machine.Address :: has(m.Program.NeededBalances, a6) && has(m.Program.NeededBalances[a6], b6) && 0 <= b6 && b6 < len(m.Resources) ==> valType(m.Resources[b6]) == 5 || valType(m.Resources[b6]) == 2 // C12
 //@   nopanic // C12
 //@   ensures err == nil ==> forall i8 in 0..len(m.Resources) :: !pendingBal(m.Resources[i8]) // C12
+// C01: the state Run starts from: every resource a machine value, balance tables distinct, non-nil and with non-nil entries
+//@   requires resourcesP(m) // C01
+//@   ensures err == nil ==> noFunding(m.Resources) && wf(m) && balNonNil(m) // C01
 //@   loop 1 invariant len(m.Resources) == old(len(m.Resources)) && m.UnresolvedResourceBalances == old(m.UnresolvedResourceBalances)
 //@   loop 1 invariant forall k7 int :: has(m.UnresolvedResourceBalances, k7) ==> 0 <= k7 && k7 < len(m.Resources) && typeis(m.Resources[k7], "machine.Monetary")
 //@   loop 1 invariant forall i7 in 0..len(m.Resources) :: pendingBal(m.Resources[i7]) ==> has(m.UnresolvedResourceBalances, i7) && !in(i7, visited)
@@ -296,8 +310,14 @@ package vm
 //@   loop 3 invariant m.Balances != nil && (forall a4 machine.AccountAddress :: has(m.Balances, a4) ==> m.Balances[a4] != nil) && has(m.Balances, accountAddress) // C12
 //@   ensures m.Program == old(m.Program) && m.UnresolvedResources == old(m.UnresolvedResources) // C08: the (possibly cached, shared) program is never written
 //@   modifies Machine.Balances, Machine.Resources, map[machine.AccountAddress]map[machine.Asset]*machine.MonetaryInt, map[machine.Asset]*machine.MonetaryInt
-//@   property C12
+// C01 hints: resources stay machine values (loop 1 only fills in amounts); the balance tables built in loops 2/3
+// are fresh, distinct objects with non-nil entries
+//@   loop 1 invariant resourcesP(m) // C01
+//@   loop 2 invariant resourcesP(m) && (forall i0 in 0..len(m.Resources) :: !pendingBal(m.Resources[i0])) // C01
+//@   loop 3 invariant resourcesP(m) && (forall i9 in 0..len(m.Resources) :: !pendingBal(m.Resources[i9])) // C01
+//@   loop 2 invariant balTables(m) // C01
+//@   loop 3 invariant balTables(m) && has(m.Balances, accountAddress) // C01
+//@   property C12 C01
 //@   alsofor C08
 
-// a monetary literal of a program always has an amount
-//@ typeinv program.Monetary: self.Amount != nil // C12
+// (the invariant of program.Monetary is in vm/program/contracts_verif.go)
